@@ -269,6 +269,10 @@ def _compare(  # noqa: C901, PLR0912
         **kwargs,
     ):
         if change.typ == ADD:
+            if change.old is not None:
+                # an entry that could not be identified (e.g. a broken link)
+                # is in the way of what gets created
+                _add_delete(change.old)
             _add_create(change.new)
         elif change.typ == DELETE:
             if not delete:
